@@ -332,7 +332,7 @@ func doReplay(path string) int {
 		return 0
 	case "ar":
 		msg := runArCase(*rp.Case)
-		fmt.Printf("arithmetic case: %s %v %v\n", rp.Case.Check, rp.Case.Ops, rp.Case.RV)
+		fmt.Printf("arithmetic case: %s operands=%v rv=%v commit=%v counts=%v\n", rp.Case.Check, rp.Case.Ops, rp.Case.RV, rp.Case.Commit, rp.Case.Counts)
 		if msg != "" {
 			fmt.Println("VIOLATED:", msg)
 			return 1
